@@ -35,8 +35,19 @@ using proto::Line;
 #else
     #define C07_RELN rel3
 #endif
-#ifndef C07_HAS_OPTREF_CONV
-    #define C07_HAS_OPTREF_CONV 0
+// optional<T&> from optional<U>: converting constructor (direct and copy-initialization) / converting assignment, from a
+// const source (_C) and from a non-const lvalue or an rvalue source (_M)
+#ifndef C07_HAS_OPTREF_CTOR_C
+    #define C07_HAS_OPTREF_CTOR_C 0
+#endif
+#ifndef C07_HAS_OPTREF_CTOR_M
+    #define C07_HAS_OPTREF_CTOR_M 0
+#endif
+#ifndef C07_HAS_OPTREF_ASSIGN_C
+    #define C07_HAS_OPTREF_ASSIGN_C 0
+#endif
+#ifndef C07_HAS_OPTREF_ASSIGN_M
+    #define C07_HAS_OPTREF_ASSIGN_M 0
 #endif
 #ifndef C07_HAS_EXPECTED_EQ
     #define C07_HAS_EXPECTED_EQ 0
@@ -397,6 +408,18 @@ struct VarCfg final : Cfg {
                 }
             });
             return fin(ri, rs);
+        }
+        if (op == "make") { // variant(in_place_index<I>, x): also for a repeated alternative type
+            auto k = slot("s");
+            auto i = slot("i");
+            auto n = l.i("v");
+            if (i >= N) { return BAD; }
+            with_index<N>(i, [&](auto I) {
+                using T = alt<decltype(I)::value>;
+                e[k]    = std::make_unique<EV>(etl::in_place_index<decltype(I)::value>, mk<T>(n));
+                s[k]    = std::make_unique<SV>(std::in_place_index<decltype(I)::value>, mk<T>(n));
+            });
+            return fin("ok", "ok");
         }
         if (op == "assign" || op == "ctor") {
             auto k = slot("s");
@@ -925,6 +948,49 @@ struct ORefCfg final : Cfg {
         }
         return both(x, y);
     }
+    using CR = etl::optional<int const&>;
+    static std::string showc(CR const& c, int const* want)
+    {
+        if (!c.has_value()) { return "-"; }
+        if (c.operator->() != want) { return "engaged p=0"; } // bound to something else (not read)
+        return show(*c) + " p=1";
+    }
+    // How: 0 direct-initialization, 1 copy-initialization, 2 assignment to a target that is empty / bound to *pre
+    template <int How, typename From>
+    static std::string conv_any(From&& from, int const* pre, int const* want)
+    {
+        if constexpr (How == 0) {
+            CR c(std::forward<From>(from));
+            return showc(c, want);
+        } else if constexpr (How == 1) {
+            CR c = std::forward<From>(from);
+            return showc(c, want);
+        } else {
+            CR c = pre != nullptr ? CR(*pre) : CR();
+            CR& r = (c = std::forward<From>(from));
+            return &r == &c ? showc(c, want) : std::string("bad-return");
+        }
+    }
+    template <int How, typename From>
+    static std::string conv_c(From&& from, int const* pre, int const* want) // const sources
+    {
+        if constexpr (How == 2 ? C07_HAS_OPTREF_ASSIGN_C != 0 : C07_HAS_OPTREF_CTOR_C != 0) {
+            return conv_any<How>(std::forward<From>(from), pre, want);
+        } else {
+            (void)from, (void)pre, (void)want;
+            return "nc";
+        }
+    }
+    template <int How, typename From>
+    static std::string conv_m(From&& from, int const* pre, int const* want) // non-const lvalue and rvalue sources
+    {
+        if constexpr (How == 2 ? C07_HAS_OPTREF_ASSIGN_M != 0 : C07_HAS_OPTREF_CTOR_M != 0) {
+            return conv_any<How>(std::forward<From>(from), pre, want);
+        } else {
+            (void)from, (void)pre, (void)want;
+            return "nc";
+        }
+    }
     static std::string relp(int* a, int* b)
     {
         // reference semantics of P2988: compare like optional<int> on the referents
@@ -1014,15 +1080,41 @@ struct ORefCfg final : Cfg {
             std::optional<int> y = s[k] ? std::optional<int>(*s[k]) : std::nullopt;
             return fin(C07_RELN(*e[k], etl::nullopt) + C07_RELN(etl::nullopt, *e[k]), rel6(y, std::nullopt) + rel6(std::nullopt, y));
         }
-        if (op == "conv") { // optional<int const&> from optional<int&>  (P2988 converting constructor)
-            auto k = slot("s");
-#if C07_HAS_OPTREF_CONV
-            etl::optional<int const&> c(*e[k]);
-            std::string ri = c.has_value() ? show(*c) : std::string("-");
-#else
-            std::string ri = "nc";
-#endif
-            return fin(ri, s[k] ? show(*s[k]) : std::string("-"));
+        if (op == "conv") {
+            // optional<int const&> made from another optional: P2988 converting constructor (how=ctor: direct-,
+            // how=implicit: copy-initialization) and converting assignment (how=assign, target bound to cell `pre`
+            // or empty before).  Source: slot s as a non-const lvalue (src=ref), const lvalue (cref) or rvalue (rref)
+            // optional<int&>, or an optional<int> (val: non-const lvalue, cval: const lvalue) that holds a copy of the
+            // referent of slot s / is empty when the slot is.  Reference = the paper's wording on pointers:
+            // "if rhs.has_value() is true, val refers to *rhs; otherwise *this is empty".
+            // Answer: `-` (empty) or `<referent> p=1` (p: the result points at the object the source holds).
+            auto k   = slot("s");
+            auto how = l.str("how");
+            auto src = l.str("src");
+            if (how != "ctor" && how != "implicit" && how != "assign") { return BAD; }
+            if (l.has("pre") && (how != "assign" || slot("pre") >= ncell)) { return BAD; }
+            int const* pre = l.has("pre") ? &ce[slot("pre")] : nullptr;
+            etl::optional<int> ev = e[k]->has_value() ? etl::optional<int>(**e[k]) : etl::optional<int>();
+            std::optional<int> sv = s[k] != nullptr ? std::optional<int>(*s[k]) : std::nullopt;
+            bool const val = src == "val" || src == "cval";
+            if (!val && src != "ref" && src != "cref" && src != "rref") { return BAD; }
+            // the object the source holds, on each side
+            int const* want = val ? (ev.has_value() ? &*ev : nullptr) : (e[k]->has_value() ? e[k]->operator->() : nullptr);
+            int const* ref  = val ? (sv.has_value() ? &*sv : nullptr) : s[k]; // reference result: rhs.has_value() ? &*rhs : null
+            std::string ri  = "nc";
+            int const h     = how == "ctor" ? 0 : how == "implicit" ? 1 : 2;
+            if (src == "cref") {
+                ri = h == 0 ? conv_c<0>(std::as_const(*e[k]), pre, want) : h == 1 ? conv_c<1>(std::as_const(*e[k]), pre, want) : conv_c<2>(std::as_const(*e[k]), pre, want);
+            } else if (src == "cval") {
+                ri = h == 0 ? conv_c<0>(std::as_const(ev), pre, want) : h == 1 ? conv_c<1>(std::as_const(ev), pre, want) : conv_c<2>(std::as_const(ev), pre, want);
+            } else if (src == "ref") {
+                ri = h == 0 ? conv_m<0>(*e[k], pre, want) : h == 1 ? conv_m<1>(*e[k], pre, want) : conv_m<2>(*e[k], pre, want);
+            } else if (src == "rref") {
+                ri = h == 0 ? conv_m<0>(std::move(*e[k]), pre, want) : h == 1 ? conv_m<1>(std::move(*e[k]), pre, want) : conv_m<2>(std::move(*e[k]), pre, want);
+            } else {
+                ri = h == 0 ? conv_m<0>(ev, pre, want) : h == 1 ? conv_m<1>(ev, pre, want) : conv_m<2>(ev, pre, want);
+            }
+            return fin(ri, ref != nullptr ? show(*ref) + " p=1" : std::string("-"));
         }
         return BAD;
     }
@@ -1254,9 +1346,93 @@ struct ExpCfg final : Cfg {
     }
 };
 
+// ---------------------------------------------------------------- converting constructor / assignment: which alternative
+// kinds: b bool, h char, s short, i int, l long, u unsigned, f float, d double, p char const*, P int*, v void const*,
+// n nullptr_t, L string literal (lvalue char const[4]), e unscoped enum : int, E scoped enum, T Text(char const*),
+// N Num(int), I ToInt (operator int)
+enum SelUE : int { SelUA, SelUB };
+enum class SelSE { A, B };
+struct SelText {
+    char const* s;
+    SelText() noexcept : s("") { }
+    SelText(char const* p) noexcept : s(p) { } // NOLINT implicit: a class alternative constructible from a pointer
+};
+struct SelNum {
+    int v;
+    SelNum() noexcept : v(0) { }
+    SelNum(int x) noexcept : v(x) { } // NOLINT
+};
+struct SelToInt {
+    operator int() const noexcept { return 4; } // NOLINT
+};
+
+template <typename V, typename A>
+std::string sel_one(bool assign, A&& a)
+{
+    if (assign) {
+        if constexpr (std::is_assignable_v<V&, A>) {
+            V v;
+            v = std::forward<A>(a);
+            return std::to_string(v.index());
+        } else {
+            return "nc";
+        }
+    } else {
+        if constexpr (std::is_constructible_v<V, A>) {
+            V v(std::forward<A>(a));
+            return std::to_string(v.index());
+        } else {
+            return "nc";
+        }
+    }
+}
+
+template <typename F>
+bool with_sel_arg(std::string const& a, F&& f)
+{
+    static int cell             = 3;
+    static char const lit[4]    = "abc"; // the type and value category of a string literal
+    if (a == "b") { f(true); return true; }
+    if (a == "h") { f('c'); return true; }
+    if (a == "s") { f(static_cast<short>(3)); return true; }
+    if (a == "i") { f(5); return true; }
+    if (a == "l") { f(7L); return true; }
+    if (a == "u") { f(9U); return true; }
+    if (a == "f") { f(1.5F); return true; }
+    if (a == "d") { f(2.5); return true; }
+    if (a == "p") { char const* p = lit; f(std::move(p)); return true; }
+    if (a == "P") { int* p = &cell; f(std::move(p)); return true; }
+    if (a == "v") { void const* p = &cell; f(std::move(p)); return true; }
+    if (a == "n") { f(nullptr); return true; }
+    if (a == "L") { f(lit); return true; }
+    if (a == "e") { f(SelUB); return true; }
+    if (a == "E") { f(SelSE::B); return true; }
+    if (a == "T") { f(SelText("x")); return true; }
+    if (a == "N") { f(SelNum(1)); return true; }
+    if (a == "I") { f(SelToInt {}); return true; }
+    return false;
+}
+
+template <typename... Ts>
+std::string sel_list(std::string const& a, bool assign)
+{
+    std::string ri, rs;
+    bool ok = with_sel_arg(a, [&]<typename A>(A&& arg) {
+        ri = sel_one<etl::variant<Ts...>, A>(assign, std::forward<A>(arg));
+        rs = sel_one<std::variant<Ts...>, A>(assign, std::forward<A>(arg));
+    });
+    return ok ? both(ri + " |", rs + " |") : BAD;
+}
+
+struct SelCfg final : Cfg {
+    int half; // which half of the alternative lists this translation unit has
+    explicit SelCfg(int h) : half(h) { }
+    std::string step(Line const& l) override;
+};
+
 // ---------------------------------------------------------------- dispatch
-// The configurations are instantiated in 8 groups so that the build can compile them in parallel:
-// -DC07_PART=k (k = 0..7) compiles only make_part<k>; -DC07_PART=-1 compiles main() and links the parts;
+// The configurations are instantiated in 11 groups so that the build can compile them in parallel:
+// -DC07_PART=k (k = 0..10) compiles only make_part<k>; -DC07_PART=-1 compiles main() and links the parts;
 // without C07_PART everything is one translation unit.
 using Made = std::unique_ptr<Cfg>;
 Made make_part0(std::string const& kind, std::string const& alts, std::size_t n);
@@ -1267,6 +1443,11 @@ Made make_part4(std::string const& kind, std::string const& alts, std::size_t n)
 Made make_part5(std::string const& kind, std::string const& alts, std::size_t n);
 Made make_part6(std::string const& kind, std::string const& alts, std::size_t n);
 Made make_part7(std::string const& kind, std::string const& alts, std::size_t n);
+Made make_part8(std::string const& kind, std::string const& alts, std::size_t n);
+Made make_part9(std::string const& kind, std::string const& alts, std::size_t n);
+Made make_part10(std::string const& kind, std::string const& alts, std::size_t n);
+std::string sel_step0(std::string const& alts, std::string const& a, bool assign);
+std::string sel_step1(std::string const& alts, std::string const& a, bool assign);
 
 #if !defined(C07_PART) || C07_PART == 0
 Made make_part0(std::string const& kind, std::string const& alts, std::size_t n)
@@ -1357,6 +1538,71 @@ Made make_part7(std::string const& kind, std::string const& alts, std::size_t n)
 }
 #endif
 
+#if !defined(C07_PART) || C07_PART == 8
+Made make_part8(std::string const& kind, std::string const& alts, std::size_t n)
+{
+    // repeated alternative types: assignment, construction, swap, comparison and visit go by index
+    if (kind == "var" && alts == "tit") { return std::make_unique<VarCfg<Trk, int, Trk>>(n); }
+    if (kind == "var" && alts == "mm") { return std::make_unique<VarCfg<Mo, Mo>>(n); }
+    return nullptr;
+}
+#endif
+
+#if !defined(C07_PART) || C07_PART == 9
+Made make_part9(std::string const& kind, std::string const& alts, std::size_t n)
+{
+    if (kind == "var" && alts == "qiq") { return std::make_unique<VarCfg<KQ, int, KQ>>(n); }
+    return nullptr;
+}
+// selector probes, first half of the alternative lists
+std::string sel_step0(std::string const& alts, std::string const& a, bool assign)
+{
+    if (alts == "bT") { return sel_list<bool, SelText>(a, assign); }
+    if (alts == "Tb") { return sel_list<SelText, bool>(a, assign); }
+    if (alts == "ibv") { return sel_list<int, bool, void const*>(a, assign); }
+    if (alts == "bi") { return sel_list<bool, int>(a, assign); }
+    if (alts == "bN") { return sel_list<bool, SelNum>(a, assign); }
+    if (alts == "hld") { return sel_list<char, long, double>(a, assign); }
+    if (alts == "fl") { return sel_list<float, long>(a, assign); }
+    if (alts == "su") { return sel_list<short, unsigned>(a, assign); }
+    if (alts == "pT") { return sel_list<char const*, SelText>(a, assign); }
+    return std::string();
+}
+#endif
+
+#if !defined(C07_PART) || C07_PART == 10
+Made make_part10(std::string const& kind, std::string const& /*alts*/, std::size_t /*n*/)
+{
+    if (kind == "sel") { return std::make_unique<SelCfg>(0); }
+    return nullptr;
+}
+// selector probes, second half
+std::string sel_step1(std::string const& alts, std::string const& a, bool assign)
+{
+    if (alts == "vb") { return sel_list<void const*, bool>(a, assign); }
+    if (alts == "TN") { return sel_list<SelText, SelNum>(a, assign); }
+    if (alts == "iE") { return sel_list<int, SelSE>(a, assign); }
+    if (alts == "el") { return sel_list<SelUE, long>(a, assign); }
+    if (alts == "bdT") { return sel_list<bool, double, SelText>(a, assign); }
+    if (alts == "b") { return sel_list<bool>(a, assign); }
+    if (alts == "bb") { return sel_list<bool, bool>(a, assign); }
+    if (alts == "ifd") { return sel_list<int, float, double>(a, assign); }
+    if (alts == "lN") { return sel_list<long, SelNum>(a, assign); }
+    if (alts == "Pb") { return sel_list<int*, bool>(a, assign); }
+    return std::string();
+}
+std::string SelCfg::step(Line const& l)
+{
+    if (l.op == "state") { return both("ok |", "ok |"); }
+    if (l.op != "sel") { return BAD; }
+    auto how = l.str("how");
+    if (how != "ctor" && how != "assign") { return BAD; }
+    auto r = sel_step0(l.str("alts"), l.str("a"), how == "assign");
+    if (r.empty()) { r = sel_step1(l.str("alts"), l.str("a"), how == "assign"); }
+    return r.empty() ? BAD : r;
+}
+#endif
+
 #if !defined(C07_PART) || C07_PART == -1
 static Made make(std::string const& kind, std::string const& alts, std::size_t n)
 {
@@ -1368,6 +1614,9 @@ static Made make(std::string const& kind, std::string const& alts, std::size_t n
     if (auto p = make_part5(kind, alts, n)) { return p; }
     if (auto p = make_part6(kind, alts, n)) { return p; }
     if (auto p = make_part7(kind, alts, n)) { return p; }
+    if (auto p = make_part8(kind, alts, n)) { return p; }
+    if (auto p = make_part9(kind, alts, n)) { return p; }
+    if (auto p = make_part10(kind, alts, n)) { return p; }
     return nullptr;
 }
 
